@@ -103,6 +103,16 @@ type KnownFile struct {
 	} `json:"fixed"`
 }
 
+// enforced is the vacuity threshold derived from the hand-confirmed instance count: exact for tiny
+// rules, 60% for enumerations, so that a benign edit that merges or removes a site does not trip it
+// while a moved anchor (count collapsing towards zero) still does.
+func enforced(confirmed int) int {
+	if confirmed <= 2 {
+		return confirmed
+	}
+	return (confirmed*6 + 9) / 10
+}
+
 func posLess(a, b string) bool {
 	fa, la := splitPos(a)
 	fb, lb := splitPos(b)
@@ -136,8 +146,8 @@ func (r *Report) Finish(root string) int {
 	}
 	sort.Strings(rules)
 	for _, rule := range rules {
-		if counts[rule] < r.RuleMin[rule] {
-			r.Unknown(rule, "instance-count", "-", fmt.Sprintf("rule matched %d instances, fewer than the %d confirmed by hand: an anchor has moved and the rule would pass vacuously", counts[rule], r.RuleMin[rule]))
+		if counts[rule] < enforced(r.RuleMin[rule]) {
+			r.Unknown(rule, "instance-count", "-", fmt.Sprintf("rule matched %d instances; %d were confirmed by hand on the reference tree and at least %d are required: anchors have moved and the rule would pass vacuously", counts[rule], r.RuleMin[rule], enforced(r.RuleMin[rule])))
 			counts[rule]++
 		}
 	}
@@ -174,7 +184,7 @@ func (r *Report) Finish(root string) int {
 	var samples []any
 	perRule := map[string]map[string]any{}
 	for _, rule := range rules {
-		perRule[rule] = map[string]any{"doc": r.RuleDoc[rule], "instances": counts[rule], "min_confirmed": r.RuleMin[rule], "discharged": 0}
+		perRule[rule] = map[string]any{"doc": r.RuleDoc[rule], "instances": counts[rule], "min_confirmed": r.RuleMin[rule], "min_enforced": enforced(r.RuleMin[rule]), "discharged": 0}
 	}
 	sampled := map[string]int{}
 	code := 0
